@@ -19,6 +19,12 @@ invalid cases    : bad name / bad module / different object under an existing fu
                    probe of the registry (old names, new names, the objects) is unchanged.
                    (the list faults are also tried as a second registration of the same object
                    under the full name it already has: rejected, first registration intact)
+final cases      : classes that refuse to be subclassed (__init_subclass__ raising, vetoing
+                   metaclass) through register / external_configurable: rejected or not, the
+                   class is unaltered, a rejection registers nothing, direct calls are uninjected.
+nesting cases    : programs of nested interactive_mode() blocks (depth <= 3, normal / exception
+                   exit) and top-level enter/exit calls with re-registration attempts at every
+                   position; accepted iff an enclosing block or an explicit enter is active.
 dynreg cases     : the config-file registration API ('from __gin__ import dynamic_registration'):
                    a module's own K would be registered under a full name held by a different
                    object registered from Python -> ValueError, registry probe unchanged.
@@ -98,8 +104,9 @@ ASSUMPTIONS = [
     'dynamic registration is a registration API: it names a module attribute <module path>.<attr>; '
     'import aliases are not generated (the alias becomes part of the registered name, nothing '
     'clashes) and acceptance inside interactive mode is not asserted for it',
-    'nested interactive blocks are not generated (whether the outer block is still interactive '
-    'after an inner one exits is not stated); injection into registered *methods* through a '
+    'nested interactive blocks (nesting cases): the mode is on iff at least one enclosing '
+    'interactive_mode() block is active or enter_interactive_mode() has not been undone; explicit '
+    'enter/exit are generated at top level only and never unbalanced inside a block; injection into registered *methods* through a '
     'class version is not asserted (the statement only says such instances need not be of the '
     'exact class)',
     'an abstract class cannot have an instance "of exactly that class": constructing any version '
@@ -1406,8 +1413,200 @@ def check_bulk(case):
   return ok(labels, nt)
 
 
+# ----------------------------------------------------------------------------- unsubclassable
+FINAL_SHAPES = ['final_init_subclass', 'veto_metaclass']
+
+
+def final_source(shape, sig, doc):
+  d, r = doc_text(doc), rec_text(sig)
+  init = f'  def __init__({sig_text(sig, "self")}):\n    self.rec = {r}\n'
+  if shape == 'final_init_subclass':
+    body = (f'class K:\n{d}{init}  def __init_subclass__(cls, **kwargs):\n'
+            "    raise TypeError('K may not be subclassed')\n")
+  else:
+    body = ('class _Veto(type):\n  def __new__(mcs, name, bases, ns, **kwargs):\n'
+            "    if bases:\n      raise TypeError('no subclasses')\n"
+            '    return super().__new__(mcs, name, bases, ns)\n\n'
+            f'class K(metaclass=_Veto):\n{d}{init}')
+  return 'import gin\n\n' + body + '\ndef _rec(x):\n  return dict(x.rec)\n'
+
+
+def check_final(case):
+  """A class that refuses to be subclassed, given to the non-mutating APIs.  Gin may reject it
+  (then nothing is registered) or accept it; either way the class is the class that was written
+  and direct calls see no injected value."""
+  shape, api, form = case['shape'], case['api'], case['form']
+  if shape not in FINAL_SHAPES or api not in ('register', 'external') or form not in FORMS:
+    raise OutOfDomain('cell not in domain')
+  sig = norm_sig('init', case.get('sig', {}))
+  src = final_source(shape, sig, int(case.get('doc', 0)))
+  mod_a, mod_t = load_module(MOD_A, src), load_module(MOD_T, src)
+  orig, twin = mod_a.K, mod_t.K
+  labels = {'kind:final', 'shape:' + shape, 'api:' + api, 'form:' + form, 'target:class'}
+  priors = make_prior(int(case.get('prior', 0)) % 4)
+  sel = expected_full_name(form, orig)
+  names = sorted({x for f, _, _ in priors for x in suffixes(f)} | set(suffixes(sel)))
+  objects = [(tag, f) for _, f, tag in priors] + [('class', orig)]
+  before_vars, before = snap(orig), probe(names, objects)
+  try:
+    returned = do_register(api, form, orig)
+    raised = None
+  except Exception as e:  # pylint: disable=broad-except
+    raised = e
+  diff = snap_diff(before_vars, orig)
+  require(not diff, 'original-altered',
+          lambda: f'{api} of a class that cannot be subclassed '
+                  f'({"rejected: " + type(raised).__name__ if raised else "accepted"}): '
+                  f'vars(class) changed at {diff}')
+  named = [n for grp in names_of(sig) for n in grp]
+  bound = {}
+  for pname in named[:2]:
+    try:
+      gin.bind_parameter(f'{sel}.{pname}', f'{SENTINEL}:{pname}:0')
+      bound[pname] = f'{SENTINEL}:{pname}:0'
+    except Exception:  # pylint: disable=broad-except
+      pass            # nothing registered under that name
+  if raised is not None:
+    labels.add('rejected-with:' + type(raised).__name__)
+    pdiff = probe_diff(before, probe(names, objects))
+    require(not pdiff and not bound, 'rejected-registration-changed-registry',
+            lambda: f'{type(raised).__name__} was raised, yet probes {pdiff} changed / bindings '
+                    f'{sorted(bound)} for {sel} were accepted')
+  else:
+    labels.add('accepted')
+    if api == 'register':
+      require(returned is orig, 'register-returned-other-object', repr(returned))
+  pos, _, kwo, _ = names_of(sig)
+  args, kwargs = [], {n: 'call:' + n for n in pos + kwo}
+  for a, k in ((args, kwargs), (args, {})):
+    got = summary(call(orig, a, k), mod_a._rec)   # pylint: disable=protected-access
+    want = summary(call(twin, a, k), mod_t._rec)  # pylint: disable=protected-access
+    require(got == want and SENTINEL + ':' not in repr(got),
+            'direct-call-received-injected-value' if SENTINEL + ':' in repr(got) else
+            'direct-call-differs-from-untouched-twin',
+            lambda: f'direct call {k}: got {got}, untouched twin {want}')
+  out = call(orig, args, kwargs)
+  require(out[0] == 'ok' and type(out[1]) is orig, 'direct-call-differs-from-untouched-twin',
+          lambda: f'direct call built {out!r}')
+  diff = snap_diff(before_vars, orig)
+  require(not diff, 'original-altered', lambda: f'vars(class) changed at {diff} after use')
+  return ok(labels | ({'nontrivial'} if named else set()), bool(named))
+
+
+# ----------------------------------------------------------------------------- nested blocks
+def _fix_program(items):
+  """Makes a drawn program well-formed: explicit enter/exit only at top level, enter only when
+  not explicitly entered, exit only when explicitly entered (otherwise the op becomes a try);
+  depth <= 3."""
+  state = {'explicit': False}
+
+  def walk(its, depth):
+    out = []
+    for it in its[:6]:
+      op = it[0]
+      if op in ('with', 'with_raise'):
+        out.append([op, walk(it[1], depth + 1)] if depth < 3 else ['try'])
+      elif op == 'enter' and depth == 0 and not state['explicit']:
+        state['explicit'] = True
+        out.append(['enter'])
+      elif op == 'exit' and depth == 0 and state['explicit']:
+        state['explicit'] = False
+        out.append(['exit'])
+      else:
+        out.append(['try'])
+    return out
+  return walk(items, 0)
+
+
+def check_nesting(case):
+  """Nested interactive blocks.  Model: the mode is on iff at least one enclosing
+  interactive_mode() block is active or enter_interactive_mode() was called and not yet undone
+  by exit_interactive_mode(); a re-registration of an existing name is accepted iff it is on."""
+  kind, api, api0 = case['target'], case['api'], case.get('api0', 'register')
+  program = case['program']
+  if kind not in INVALID_TARGETS or api not in APIS or api0 not in APIS:
+    raise OutOfDomain('cell not in domain')
+  if _fix_program(program) != program:
+    raise OutOfDomain('program not well-formed')
+  labels = {'kind:nesting', 'api:' + api, 'shape:' + kind,
+            'target:class' if KINDS[kind][0] else 'target:callable'}
+  is_class = KINDS[kind][0]
+  full = 'pk.mod.' + NM
+  st_ = {'holder': build_tagged(kind, 'c13nest0'), 'n': 0, 'explicit': False, 'maxdepth': 0}
+  do_register(api0, 'name_module', st_['holder'].K)
+
+  def reaches_holder(when):
+    out = call(gin.get_configurable(full), [], {})
+    h = st_['holder']
+    good = out[0] == 'ok' and (isinstance(out[1], h.K) if is_class else
+                               out[1].get('@') == h.__name__)
+    require(good, 'name-reaches-wrong-object', lambda: f'{when}: {full} -> {out!r}, expected the '
+                                                       f'object of {h.__name__}')
+
+  def attempt(depth, path):
+    st_['n'] += 1
+    mod = build_tagged(kind, f'c13nest{st_["n"]}')
+    expected = depth > 0 or st_['explicit']
+    where = (f'attempt #{st_["n"]} at {"/".join(path) or "top level"} (enclosing blocks: {depth}, '
+             f'explicitly entered: {st_["explicit"]})')
+    try:
+      do_register(api, 'name_module', mod.K)
+      accepted = True
+    except ValueError:
+      accepted = False
+    if expected:
+      require(accepted, 're-registration-rejected-inside-interactive-mode', where)
+      st_['holder'] = mod
+      labels.add('nest:accepted-at-depth-%d' % depth)
+    else:
+      require(not accepted, 're-registration-outside-interactive-mode', where)
+      labels.add('nest:rejected-outside')
+    reaches_holder(where)
+
+  def run(items, depth, path):
+    closed_inner = False
+    for i, it in enumerate(items):
+      op = it[0]
+      if op == 'try':
+        if closed_inner and depth > 0:
+          labels.add('nest:attempt-after-inner-block-inside-outer')
+        attempt(depth, path)
+      elif op in ('with', 'with_raise'):
+        st_['maxdepth'] = max(st_['maxdepth'], depth + 1)
+        try:
+          with gin.config.interactive_mode():
+            run(it[1], depth + 1, path + [f'{op}#{i}'])
+            if op == 'with_raise':
+              raise _Marker()
+        except _Marker:
+          labels.add('block-left-by-exception')
+        closed_inner = True
+      elif op == 'enter':
+        gin.enter_interactive_mode()
+        st_['explicit'] = True
+        labels.add('nest:explicit-enter')
+      elif op == 'exit':
+        gin.exit_interactive_mode()
+        st_['explicit'] = False
+
+  run(program, 0, [])
+  if st_['explicit']:
+    gin.exit_interactive_mode()
+    st_['explicit'] = False
+  attempt(0, ['after the program'])
+  labels.add('nest:depth-%d' % st_['maxdepth'])
+  nt = st_['maxdepth'] >= 2 or 'nest:explicit-enter' in labels
+  if nt:
+    labels.add('nontrivial')
+  return ok(labels, nt)
+
+
 def check_case(case):
   k = case.get('kind')
+  if k == 'final':
+    return check_final(case)
+  if k == 'nesting':
+    return check_nesting(case)
   if k == 'dynreg':
     return check_dynreg(case)
   if k == 'bulk':
@@ -1490,8 +1689,38 @@ def _bulk_case(draw):
           'list': draw(st.sampled_from(['allowlist', 'denylist', 'mixed']))}
 
 
+@st.composite
+def _final_case(draw):
+  return {'kind': 'final', 'shape': draw(st.sampled_from(FINAL_SHAPES)),
+          'api': draw(st.sampled_from(['register', 'external'])),
+          'form': draw(st.sampled_from(FORMS)),
+          'sig': {'pos': draw(st.integers(0, 2)), 'dflt': draw(st.integers(0, 2)),
+                  'varargs': draw(st.booleans()), 'kwo': draw(st.integers(0, 1)),
+                  'kwod': draw(st.integers(0, 1)), 'varkw': draw(st.booleans())},
+          'doc': draw(st.integers(0, 2)), 'prior': draw(st.integers(0, 3))}
+
+
+def _program():
+  leaf = st.sampled_from([['try'], ['try'], ['enter'], ['exit']])
+  items = st.recursive(
+      st.lists(leaf, max_size=3),
+      lambda inner: st.lists(st.one_of(leaf, st.tuples(st.sampled_from(['with', 'with',
+                                                                          'with_raise']),
+                                                        inner).map(list)), max_size=4),
+      max_leaves=10)
+  return items.map(_fix_program)
+
+
+@st.composite
+def _nesting_case(draw):
+  return {'kind': 'nesting', 'target': draw(st.sampled_from(INVALID_TARGETS)),
+          'api': draw(st.sampled_from(APIS)), 'api0': draw(st.sampled_from(APIS)),
+          'program': draw(_program())}
+
+
 def strategy():
-  other = st.one_of(_dynreg_case(), _dynreg_case(), _dynreg_case(), _bulk_case())
+  other = st.one_of(_dynreg_case(), _dynreg_case(), _final_case(), _nesting_case(),
+                    _nesting_case(), _bulk_case())
   return st.one_of(_target_case(), _target_case(), _target_case(), _target_case(),
                    _invalid_case(), _invalid_case(), _interactive_case(), other)
 
@@ -1609,5 +1838,33 @@ def sweep_bulk(tier):
   return cases, False
 
 
-SWEEPS = {'kind-api-scope': sweep_cells, 'forms': sweep_forms, 'invalid': sweep_invalid,
+def sweep_final(tier):
+  del tier
+  cases = [{'kind': 'final', 'shape': sh, 'api': a, 'form': f, 'sig': dict(RICH_SIG), 'doc': 1,
+            'prior': 1}
+           for sh, a, f in itertools.product(FINAL_SHAPES, ['register', 'external'], FORMS)]
+  return cases, True
+
+
+def _nest(d, p, k=1):
+  """d nested blocks; one attempt at level p (p == d: inside the innermost block, 0 < p < d:
+  after the inner block but inside the block at level p; p == 0: none inside)."""
+  inner = [['with', _nest(d, p, k + 1)]] if k < d else []
+  return inner + ([['try']] if k == p else [])
+
+
+def sweep_nesting(tier):
+  del tier
+  cases = []
+  for d in (1, 2, 3):
+    for p in range(d + 1):
+      body = [['with', _nest(d, p)]]
+      for prog in (body, [['enter']] + body + [['try'], ['exit']], body + body):
+        for t, a in itertools.product(['fn', 'init', 'meta'], APIS):
+          cases.append({'kind': 'nesting', 'target': t, 'api': a, 'api0': 'register',
+                        'program': prog})
+  return cases, True
+
+
+SWEEPS = {'final': sweep_final, 'nesting': sweep_nesting, 'kind-api-scope': sweep_cells, 'forms': sweep_forms, 'invalid': sweep_invalid,
           'interactive': sweep_interactive, 'dynreg': sweep_dynreg, 'bulk': sweep_bulk}
